@@ -416,7 +416,8 @@ def run_provider(ctx, provider, suspects, failures):
                 s = recv[2](r)
                 if kind == 'slice':
                     i, j = a[2](r), b[2](r)
-                    if (a[1][0] == 'e' and i is None) or (b[1][0] == 'e' and j is None): continue    # NULL-valued bound expressions are outside the property's quantifier
+                    # NULL-valued bound expressions (Python: s[None:j]) are outside the property's quantifier; they are evaluated all the same and
+                    # compared with what the theorems C25_null_start / C25_null_stop predict (tag 'N' = start NULL, 'M' = stop NULL)
                 else:
                     i, j = a[2](r), None
                     if i is None: continue
@@ -424,7 +425,16 @@ def run_provider(ctx, provider, suspects, failures):
                     continue    # Oracle: '' IS NULL, so the bound expression itself is NULL (outside the quantifier)
                 cols = {'e.name': (None if (dialect == 'Oracle' and r['name'] == '') else r['name']), 'e.k': r['k'], 'e.m': r['m']}
                 eval_reqs.append({'op': 'eval', 'dialect': dialect, 'ast': real_sql, 'cols': cols, 'params': {'sv': 'Python'}})
-                eval_meta.append((kind, recv, a, b, src, s, i, j, r['name']))
+                nulls = ('N' if (kind == 'slice' and a[1][0] == 'e' and i is None) else '') + ('M' if (kind == 'slice' and b[1][0] == 'e' and j is None) else '')
+                eval_meta.append((kind, recv, a, b, src, s, i, j, r['name'], nulls))
+                if nulls == 'M':
+                    # C25_null_stop: the same AST evaluated with the stop expression bound to -1 must give the same result
+                    cols2 = dict(cols); bsrc = b[0]
+                    if bsrc == 'e.k': cols2['e.k'] = -1
+                    elif bsrc == 'e.m': cols2['e.m'] = -1
+                    elif bsrc == 'e.k + 1': cols2['e.k'] = -2
+                    eval_reqs.append({'op': 'eval', 'dialect': dialect, 'ast': real_sql, 'cols': cols2, 'params': {'sv': 'Python'}})
+                    eval_meta.append(('null-stop-twin', recv, a, b, src, s, i, -1, r['name'], ''))
     # ---- hand model vs the real translator / builder
     if ctx.driver.ok and model_reqs:
         outs = drive(ctx, model_reqs)
@@ -449,9 +459,28 @@ def run_provider(ctx, provider, suspects, failures):
     # ---- oracle for the other dialects: the real AST under the Lean dialect evaluator
     if ctx.driver.ok and eval_reqs:
         outs = drive(ctx, eval_reqs)
-        for (kind, recv, a, b, src, s, i, j, r_name), o in zip(eval_meta, outs):
+        last_null_stop = None
+        for (kind, recv, a, b, src, s, i, j, r_name, nulls), o in zip(eval_meta, outs):
             if 'driver_error' in o:
                 ctx.divergence('the emitted AST is outside the node kinds of the evaluator', [provider, src], model=o['driver_error'], impl=None); continue
+            if kind == 'null-stop-twin':
+                ctx.case([provider, 'null-stop-twin', src, s, i], kind='getitem-tie:null-stop-reads-as-minus-one')
+                if last_null_stop is not None and sval_out(o) != last_null_stop:
+                    ctx.divergence('C25_null_stop: a NULL stop expression and the same expression valued -1 evaluate differently', [provider, src, s, i], model=list(sval_out(o)), impl=list(last_null_stop))
+                last_null_stop = None
+                continue
+            if nulls:
+                got = sval_out(o); py = s[i:j]
+                exp = ('ok', None if (dialect == 'Oracle' and py == '') else py)
+                ctx.case([provider, 'null-bound', nulls, src, s, i, j], kind='oracle:%s:null-bound' % provider)
+                last_null_stop = got if nulls == 'M' else None
+                if 'N' in nulls and got != ('ok', None):
+                    ctx.divergence('C25_null_start: a NULL start expression did not make the result NULL', [provider, src, s, j], model=None, impl=list(got))
+                if got != exp:
+                    suspects.add(ctx, dialect + ':NULL-valued bound expression is not Python\'s None (' + ('start: result NULL' if 'N' in nulls else 'stop: read as -1') + ')',
+                                 dict(query=src, s=s, start=i, stop=j, sql_result=got[1] if got[0] == 'ok' else 'ERROR ' + str(got[1]), python=py))
+                else: ctx.count('null-bound-agrees:' + provider)
+                continue
             if kind == 'slice':
                 py = s[i:j]
                 exp = ('ok', None if (dialect == 'Oracle' and py == '') else py)
